@@ -395,7 +395,13 @@ impl FromStr for VersionNum {
 
 impl fmt::Display for VersionNum {
     fn fmt(&self, f: &mut Formatter<'_>) -> fmt::Result {
-        write!(f, "v{:0width$}", self.number, width = self.width as usize)
+        // The padding is written by hand because a format width is limited to u16::MAX
+        let digits = self.number.to_string();
+        f.write_str("v")?;
+        for _ in digits.len()..self.width as usize {
+            f.write_str("0")?;
+        }
+        f.write_str(&digits)
     }
 }
 
